@@ -9,6 +9,8 @@
   histories of any length, any placement of clients on hosts.
 -/
 import Sio.Lemmas.PubSubSyncOps
+import Sio.Lemmas.PubSubRunOps
+import Sio.Lemmas.PubSubTokOps
 import Sio.Props.C03
 namespace Sio.C07
 open Sio.PubSub Sio.Rooms
@@ -97,6 +99,26 @@ theorem sync_equiv_frames (p : Placement) (ids : List HostId) (wo : HostId) (hnd
   obtain ⟨h1, h2, _⟩ := sync_equiv_frames_from p _ _ (sim_init p ids wo hnd hwo) ops (by rw [hids]; exact hops)
   exact ⟨h1 x, h2⟩
 
+/-- `sync_equiv`, as far as it is proved (hence `_partial`).  The full statement of DESIGN §5 is
+    `observe (runSync c ops) = observe (Single.run s ops)` with `observe` = per-client packet
+    sequences + application events (callback invocations AND disconnect handlers).  Proved here:
+    the per-client packet sequences (`seenBy`, ack ids abstracted to "asks for an acknowledgement")
+    and the disconnect handlers (`discEvents`), for every placement, every history, any number of
+    hosts.  NOT proved as an equality: that the *callback invocations* of the cluster equal those of
+    the single server.  What is proved about them instead, for every schedule (not only immediate
+    delivery): `callback_once` — at most one invocation, on the issuing host.  What is checked on
+    every run instead: `appEvents (runSync …) = appEvents (Single.run …)` is evaluated by the driver
+    on every generated mode-A history (and on the real servers against one real server), and holds
+    on the concrete history above by `rfl`.  The missing proof needs the relation between the two
+    callback tables (relay entry on the client's host ↦ user entry on the issuing host ↦ entry of the
+    single server, position by position of the clients' `asked` lists) under the domain restriction
+    "a callback emit addresses one client by its own session id". -/
+theorem sync_equiv_partial (p : Placement) (ids : List HostId) (wo : HostId) (hnd : ids.Nodup)
+    (hwo : wo ∉ ids) (ops : List PubSub.Op) (hops : OpsOk p ids ops) (x : Sid) :
+    seenBy x (runSync (Cluster.init ids wo) ops).2 = seenBy x (Single.run Single.init ops).2 ∧
+    discEvents (runSync (Cluster.init ids wo) ops).2 = discEvents (Single.run Single.init ops).2 :=
+  sync_equiv_frames p ids wo hnd hwo ops hops x
+
 /-! ### a concrete history (non-vacuity) -/
 
 def hA : HostId := ['h', 'A']
@@ -178,6 +200,283 @@ theorem eligible_local (h : Host) (hinv : Inv h.rooms) (ev : Str) (d : Data) (ns
 /-- a host never applies its own emit a second time: the echo is dropped -/
 theorem own_echo_dropped (h : Host) (m : Msg) (hm : m.isCb = false) (ho : m.origin = some h.id) :
     listenMsg h m = { h := h } := listenMsg_own h m hm ho
+
+/-! ## at_most_once — any consumption schedule -/
+
+/-- a history in which every `connect` happens on the host where the placement puts the session and
+    emit targets are proper; `deliver` / `drain` may come anywhere, with any `k` -/
+def OpsFine (home : Sid → HostId) (ops : List PubSub.Op) : Prop := ∀ op ∈ ops, OpFine home op
+
+/-- how many emits of the history use the event name `ev` -/
+def emitsNamed (ev : Str) : List PubSub.Op → Nat
+  | [] => 0
+  | op :: ops => opBudget ev op + emitsNamed ev ops
+
+theorem running_init (home : Sid → HostId) (ids : List HostId) (wo : HostId) (hnd : ids.Nodup) :
+    Running home (Cluster.init ids wo) := by
+  have hids : (Cluster.init ids wo).hosts.map Host.id = ids := by
+    simp only [Cluster.init, List.map_map]
+    exact List.map_id' ids
+  have hrooms : ∀ h ∈ (Cluster.init ids wo).hosts, h.rooms = [] ∧ h.cursor = 0 := by
+    intro h hh
+    simp only [Cluster.init, List.mem_map] at hh
+    obtain ⟨i, _, rfl⟩ := hh
+    exact ⟨rfl, rfl⟩
+  refine ⟨by rw [hids]; exact hnd, ?_, ?_, ?_, EmitsOk.nil, rfl⟩
+  · intro h hh; rw [(hrooms h hh).1]; exact Inv.nil
+  · intro h hh e he; rw [(hrooms h hh).1] at he; cases he
+  · intro h hh; rw [(hrooms h hh).2]; exact Nat.zero_le _
+
+/-- From any state a run can reach, under ANY interleaving of operations with per-host
+    consumption of the channel: a client sees the event `ev` at most as often as the history emits
+    it, plus the copies already in flight towards its host. -/
+theorem at_most_once_from (home : Sid → HostId) (c : Cluster) (hrun : Running home c)
+    (ops : List PubSub.Op) (hops : OpsFine home ops) (ev : Str) (sid : Sid) :
+    evCount ev (seenBy sid (PubSub.run c ops).2) ≤ emitsNamed ev ops + pendingEv home ev sid c ∧
+    Running home (PubSub.run c ops).1 := by
+  induction ops generalizing c with
+  | nil => exact ⟨by simp [PubSub.run, seenBy, evCount], hrun⟩
+  | cons op ops ih =>
+    obtain ⟨h1, h2⟩ := once_step c hrun op (hops op List.mem_cons_self) ev sid
+    obtain ⟨i1, i2⟩ := ih (step c op).1 h1 (fun o ho => hops o (List.mem_cons_of_mem _ ho))
+    refine ⟨?_, i2⟩
+    show evCount ev (seenBy sid ((step c op).2 ++ (PubSub.run (step c op).1 ops).2)) ≤ _
+    rw [seenBy_append, evCount_append]
+    simp only [emitsNamed]
+    omega
+
+/-- **Each emit reaches each client at most once** — also on the issuing host, which applies it
+    locally and later meets its own message on the channel — for every placement of clients on
+    hosts and every consumption schedule: if one emit of the history is called `ev`, no client
+    ever sees `ev` twice. -/
+theorem at_most_once (home : Sid → HostId) (ids : List HostId) (wo : HostId) (hnd : ids.Nodup)
+    (ops : List PubSub.Op) (hops : OpsFine home ops) (ev : Str) (hone : emitsNamed ev ops ≤ 1)
+    (sid : Sid) :
+    evCount ev (seenBy sid (PubSub.run (Cluster.init ids wo) ops).2) ≤ 1 := by
+  have h := (at_most_once_from home _ (running_init home ids wo hnd) ops hops ev sid).1
+  have hp : pendingEv home ev sid (Cluster.init ids wo) = 0 := by
+    unfold pendingEv
+    split
+    · rfl
+    · simp [Cluster.init]
+  omega
+
+/-- the structural reason, stated on its own: a `deliver` applies exactly the next entries of the
+    channel, in order, and moves the cursor past them — no entry is ever applied twice by a host -/
+theorem deliver_consumes_next (chan : List Msg) (k : Nat) (h : Host) :
+    (deliverOn chan k h).h.cursor = h.cursor + ((chan.drop h.cursor).take k).length ∧
+    (deliverOn chan k h).outs = (catchUp h ((chan.drop h.cursor).take k)).outs := ⟨rfl, rfl⟩
+
+-- non-vacuity: a schedule with delayed delivery; `e1` is emitted once and seen once by each member
+def lazyOps : List PubSub.Op :=
+  [ .connect hA nsR tA sA, .connect hB nsR tB sB, .enter hA nsR sA rR, .enter hB nsR sB rR,
+    .emit (some hA) ['e', '1'] .none nsR (.one rR) .none none,
+    .deliver hB 1, .deliver hA 5, .deliver hB 5, .deliver hB 5, .drain ]
+
+example : OpsFine demoPlacement.home lazyOps := by
+  intro op hop
+  simp only [lazyOps, List.mem_cons, List.not_mem_nil, or_false] at hop
+  rcases hop with rfl | rfl | rfl | rfl | rfl | rfl | rfl | rfl | rfl | rfl <;>
+    simp [OpFine, demoPlacement, Target.ok] <;> decide
+example : emitsNamed ['e', '1'] lazyOps = 1 := by decide
+example : evCount ['e', '1'] (seenBy sA (PubSub.run (Cluster.init [hA, hB] hW) lazyOps).2) = 1 := by decide
+example : evCount ['e', '1'] (seenBy sB (PubSub.run (Cluster.init [hA, hB] hW) lazyOps).2) = 1 := by decide
+
+/-! ## callback_once — any consumption schedule -/
+
+/-- how many emits of the history carry the callback `tok` -/
+def regsOf (tok : Nat) : List PubSub.Op → Nat
+  | [] => 0
+  | .emit _ _ _ _ _ _ (some t) :: ops => (if t = tok then 1 else 0) + regsOf tok ops
+  | _ :: ops => regsOf tok ops
+
+/-- every emit that carries `tok` is issued through host `v` -/
+def RegVia (tok : Nat) (v : HostId) (ops : List PubSub.Op) : Prop :=
+  ∀ op ∈ ops, ∀ via ev d ns to skip, op = PubSub.Op.emit via ev d ns to skip (some tok) → via = some v
+
+theorem notReg_of_regsOf_zero {tok : Nat} {op : PubSub.Op} {ops : List PubSub.Op}
+    (h : regsOf tok (op :: ops) = 0) : NotReg tok op ∧ regsOf tok ops = 0 := by
+  cases op with
+  | emit via ev d ns to skip cb =>
+    cases cb with
+    | none => exact ⟨by simp [NotReg], h⟩
+    | some t =>
+      simp only [regsOf] at h
+      by_cases ht : t = tok
+      · simp [ht] at h
+      · simp only [ht, if_false, Nat.zero_add] at h
+        exact ⟨by simp [NotReg, ht], h⟩
+  | _ => exact ⟨trivial, h⟩
+
+/-- once the entry is gone and no emit carries `tok` any more, it is never invoked again -/
+theorem callback_never_without_entry (home : Sid → HostId) (tok : Nat) (c : Cluster)
+    (hrun : Running home c) (ops : List PubSub.Op) (hops : OpsFine home ops) (hno : TokNowhere tok c.hosts)
+    (hreg : regsOf tok ops = 0) : cbCount tok (PubSub.run c ops).2 = 0 := by
+  induction ops generalizing c with
+  | nil => rfl
+  | cons op ops ih =>
+    obtain ⟨hnr, hreg'⟩ := notReg_of_regsOf_zero hreg
+    have hfine := hops op List.mem_cons_self
+    have hstep := tok_step tok [] [] 0 c hrun op hfine hnr (hno.tokAt [] [] 0)
+    obtain ⟨h0, hno'⟩ := hstep.2.2.2.2 hno
+    have hrun' := (once_step c hrun op hfine [] []).1
+    have := ih (step c op).1 hrun' (fun o ho => hops o (List.mem_cons_of_mem _ ho)) hno' hreg'
+    show cbCount tok ((step c op).2 ++ (PubSub.run (step c op).1 ops).2) = 0
+    rw [cbCount_append]; omega
+
+/-- while the entry sits in its slot on host `v`: at most one invocation, on `v` -/
+theorem callback_once_stored (home : Sid → HostId) (tok : Nat) (v : HostId) (k : Str) (i : Nat)
+    (c : Cluster) (hrun : Running home c) (ops : List PubSub.Op) (hops : OpsFine home ops)
+    (ht : TokAt tok v k i c.hosts) (hreg : regsOf tok ops = 0) :
+    cbCount tok (PubSub.run c ops).2 ≤ 1 ∧ CbOn tok v (PubSub.run c ops).2 := by
+  induction ops generalizing c with
+  | nil => exact ⟨by simp [PubSub.run, cbCount], CbOn.of_count_zero rfl⟩
+  | cons op ops ih =>
+    obtain ⟨hnr, hreg'⟩ := notReg_of_regsOf_zero hreg
+    have hfine := hops op List.mem_cons_self
+    obtain ⟨s1, s2, s3, s4, _⟩ := tok_step tok v k i c hrun op hfine hnr ht
+    have hrun' := (once_step c hrun op hfine [] []).1
+    have hops' : OpsFine home ops := fun o ho => hops o (List.mem_cons_of_mem _ ho)
+    show cbCount tok ((step c op).2 ++ (PubSub.run (step c op).1 ops).2) ≤ 1 ∧
+      CbOn tok v ((step c op).2 ++ (PubSub.run (step c op).1 ops).2)
+    rw [cbCount_append]
+    by_cases hc : cbCount tok (step c op).2 = 1
+    · have hz := callback_never_without_entry home tok _ hrun' ops hops' (s4 hc) hreg'
+      exact ⟨by omega, s3.append (CbOn.of_count_zero hz)⟩
+    · obtain ⟨i1, i2⟩ := ih (step c op).1 hrun' hops' s1 hreg'
+      exact ⟨by omega, s3.append i2⟩
+
+/-- **The callback given to an emit is invoked at most once, and only by the issuing server** —
+    for every placement of clients and every consumption schedule: if at most one emit of the
+    history carries `tok`, through host `v`, then `tok` is invoked at most once, on `v`. -/
+theorem callback_once (home : Sid → HostId) (tok : Nat) (v : HostId) (c : Cluster)
+    (hrun : Running home c) (ops : List PubSub.Op) (hops : OpsFine home ops) (hno : TokNowhere tok c.hosts)
+    (hreg : regsOf tok ops ≤ 1) (hvia : RegVia tok v ops) :
+    cbCount tok (PubSub.run c ops).2 ≤ 1 ∧ CbOn tok v (PubSub.run c ops).2 := by
+  induction ops generalizing c with
+  | nil => exact ⟨by simp [PubSub.run, cbCount], CbOn.of_count_zero rfl⟩
+  | cons op ops ih =>
+    have hfine := hops op List.mem_cons_self
+    have hrun' := (once_step c hrun op hfine [] []).1
+    have hops' : OpsFine home ops := fun o ho => hops o (List.mem_cons_of_mem _ ho)
+    have hvia' : RegVia tok v ops := fun o ho => hvia o (List.mem_cons_of_mem _ ho)
+    show cbCount tok ((step c op).2 ++ (PubSub.run (step c op).1 ops).2) ≤ 1 ∧
+      CbOn tok v ((step c op).2 ++ (PubSub.run (step c op).1 ops).2)
+    rw [cbCount_append]
+    by_cases hr : ∃ via ev d ns to skip, op = PubSub.Op.emit via ev d ns to skip (some tok)
+    · -- the emit that carries `tok`
+      obtain ⟨via, ev, d, ns, to, skip, rfl⟩ := hr
+      have hv : via = some v := hvia _ List.mem_cons_self via ev d ns to skip rfl
+      subst hv
+      have hreg' : regsOf tok ops = 0 := by simp [regsOf] at hreg; omega
+      obtain ⟨k, i, t1, t2⟩ := tok_register tok c hrun v ev d ns to skip hno
+      obtain ⟨a1, a2⟩ := callback_once_stored home tok v k i _ hrun' ops hops' t1 hreg'
+      exact ⟨by omega, (CbOn.of_count_zero t2).append a2⟩
+    · have hnr : NotReg tok op := by
+        cases op with
+        | emit via ev d ns to skip cb =>
+          intro hc
+          exact hr ⟨via, ev, d, ns, to, skip, by rw [hc]⟩
+        | _ => trivial
+      have hreg' : regsOf tok ops ≤ 1 := by
+        cases op with
+        | emit via ev d ns to skip cb =>
+          cases cb with
+          | none => exact hreg
+          | some t => simp only [regsOf] at hreg; omega
+        | _ => exact hreg
+      obtain ⟨h0, hno'⟩ := (tok_step tok v [] 0 c hrun op hfine hnr (hno.tokAt v [] 0)).2.2.2.2 hno
+      obtain ⟨i1, i2⟩ := ih (step c op).1 hrun' hops' hno' hreg' hvia'
+      exact ⟨by omega, (CbOn.of_count_zero h0).append i2⟩
+
+/-- from the empty cluster -/
+theorem callback_once_init (home : Sid → HostId) (ids : List HostId) (wo : HostId) (hnd : ids.Nodup)
+    (tok : Nat) (v : HostId) (ops : List PubSub.Op) (hops : OpsFine home ops)
+    (hreg : regsOf tok ops ≤ 1) (hvia : RegVia tok v ops) :
+    cbCount tok (PubSub.run (Cluster.init ids wo) ops).2 ≤ 1 ∧
+    CbOn tok v (PubSub.run (Cluster.init ids wo) ops).2 := by
+  refine callback_once home tok v _ (running_init home ids wo hnd) ops hops ?_ hreg hvia
+  intro h hh k i hx
+  simp only [Cluster.init, List.mem_map] at hh
+  obtain ⟨j, _, rfl⟩ := hh
+  cases hx
+
+-- non-vacuity: the demo history (run without the automatic drains, then drained) invokes callback 7
+-- exactly once, on host B which issued it
+example : regsOf 7 (demoOps ++ [.drain]) = 1 := by decide
+example : RegVia 7 hB (demoOps ++ [.drain]) := by
+  intro op hop via ev d ns to skip he
+  subst he
+  simp [demoOps] at hop
+  obtain ⟨rfl, _⟩ := hop
+  rfl
+example : cbCount 7 (runSync (Cluster.init [hA, hB] hW) demoOps).2 = 1 := by decide
+
+/-! ## unraced_exact -/
+
+/-- **A message that no membership change races is delivered exactly as one server would.**
+    Let `vs` be the hosts' room tables *as they are when each host applies the emit* and `s` the
+    table of the single server at the moment of publication; "not raced" is: these are still the
+    partition of `s` (`Placed`, `Union` — no membership operation has been applied on a host
+    between publication and its application).  Then the host that applies the emit sends every
+    client that lives on it exactly what the single server sends that client, and nothing to
+    anybody else.  (Each host applies each entry once — `at_most_once` — so over all hosts every
+    client receives exactly the single server's packets.) -/
+theorem unraced_exact (p : Placement) (vs : List View) (s : Rooms.St) (hp : Placed p.home p.ehome vs)
+    (hu : Union vs s) (hs : Inv s) (h : Host) (hv : h.view ∈ vs) (o : HostId) (ev : Str) (d : Data)
+    (ns : Ns) (to : Target) (skip : Skip) (cb : Option (Str × Ns × Nat)) (ho : o ≠ h.id)
+    (hok : Target.ok to) (x : Sid) :
+    seenBy x (listenMsg h (.emit o ev d ns to skip cb)).outs =
+      if p.home x = h.id then seenEmit s ns to skip.toList (.str ev) d.pack cb.isSome x else [] := by
+  have hinv : Inv h.rooms := hp.inv h.view hv
+  have he := (listenMsg_effect h hinv (.emit o ev d ns to skip cb) rfl
+    (fun _ _ _ _ _ _ _ heq => by cases heq; exact hok)).2.2.2.2.1 x
+  rw [he]
+  simp only [seenAfter, if_neg ho]
+  have hhome : HomeOk p.home h.id h.rooms := hp.home h.view hv
+  by_cases hx : p.home x = h.id
+  · rw [if_pos hx]
+    have hsplit := seenEmit_union_split hp hu hs ns to skip.toList (.str ev) d.pack cb.isSome x h.view hv
+    have hothers : vs.flatMap (fun v => if h.view.1 = v.1 then [] else
+        seenEmit v.2 ns to skip.toList (.str ev) d.pack cb.isSome x) = [] := by
+      rw [List.flatMap_eq_nil_iff]
+      intro v hvv
+      split
+      · rfl
+      · rename_i hne
+        exact seenEmit_nil_of_elsewhere (hp.inv v hvv) (hp.home v hvv)
+          (fun hc => hne (by rw [← hc, hx]; rfl)) ns to _ _ _ _
+    rw [hothers, List.append_nil] at hsplit
+    exact hsplit
+  · rw [if_neg hx]
+    exact seenEmit_nil_of_elsewhere hinv hhome hx ns to _ _ _ _
+
+/-- the same for the issuing host's local application -/
+theorem unraced_exact_local (p : Placement) (vs : List View) (s : Rooms.St)
+    (hp : Placed p.home p.ehome vs) (hu : Union vs s) (hs : Inv s) (h : Host) (hv : h.view ∈ vs)
+    (ev : Str) (d : Data) (ns : Ns) (to : Target) (skip : Skip) (cb : Option Nat) (hok : Target.ok to)
+    (hcb : cb.isSome → ∃ r, to = .one r) (x : Sid) :
+    seenBy x (apiEmit h true ev d ns to skip cb).outs =
+      if p.home x = h.id then seenEmit s ns to skip.toList (.str ev) d.pack cb.isSome x else [] := by
+  have hinv : Inv h.rooms := hp.inv h.view hv
+  rw [(apiEmit_effect h hinv ev d ns to skip cb hok hcb).2.2.2.2.2.1 x]
+  have hhome : HomeOk p.home h.id h.rooms := hp.home h.view hv
+  by_cases hx : p.home x = h.id
+  · rw [if_pos hx]
+    have hsplit := seenEmit_union_split hp hu hs ns to skip.toList (.str ev) d.pack cb.isSome x h.view hv
+    have hothers : vs.flatMap (fun v => if h.view.1 = v.1 then [] else
+        seenEmit v.2 ns to skip.toList (.str ev) d.pack cb.isSome x) = [] := by
+      rw [List.flatMap_eq_nil_iff]
+      intro v hvv
+      split
+      · rfl
+      · rename_i hne
+        exact seenEmit_nil_of_elsewhere (hp.inv v hvv) (hp.home v hvv)
+          (fun hc => hne (by rw [← hc, hx]; rfl)) ns to _ _ _ _
+    rw [hothers, List.append_nil] at hsplit
+    exact hsplit
+  · rw [if_neg hx]
+    exact seenEmit_nil_of_elsewhere hinv hhome hx ns to _ _ _ _
 
 /-! ## remote_ops_local_effect -/
 
